@@ -1,8 +1,8 @@
 (* C10 -- consist power split conserves demand and honours each unit's capability.
    Pinned statements only; proofs in proofs/ConsistP.v and proofs/C10P.v. *)
 From Coq Require Import Reals List Bool.
-From AltModel Require Import Num Interp Powertrain Loco Consist.
-From AltProofs Require Import NumR ConsistP C10P.
+From AltModel Require Import Num Interp Powertrain Loco Consist Resist Braking TrainStep TrainFull.
+From AltProofs Require Import NumR ConsistP C10P TrainFullP WholeSplitP.
 Import ListNotations.
 Open Scope R_scope.
 
@@ -40,3 +40,33 @@ Theorem C10_sign_agreement_refuted : forall (l0 : LocoR) (s : ConsistState (F:=R
   cs_pwr_out_max s = sumR lim ls /\ 0 < cs_pwr_out_req s <= cs_pwr_out_max s /\
   exists shares p, split_positive Proportional ls s = Ok shares /\ In p shares /\ p < 0.
 Proof. exact sign_agreement_refuted. Qed.
+
+(* ---- the WHOLE train simulations (coq/model/TrainFull.v; tied to the real step()/walk() by check C11): the consist
+   transition inside a whole step is one ConsistSimulation step whose request is the wheel power the TRAIN model chose,
+   so the split statement holds for every step of every accepted whole run (cinv = well-formed consist with limit
+   checking on; sl_pwr / ss_pwr = the wheel power saved in the train state after the step) ---- *)
+Theorem C10_whole_speed_limit_step : forall (e : Env (F:=R)) pts fmax (x x' : SLStateR * ConsistR),
+  sl_full_step e pts fmax x = Ok x' -> cinv (snd x) ->
+  cinv (snd x') /\ cn_pdct (snd x') = cn_pdct (snd x) /\
+  (limits_nonneg (snd x') -> split_ok (cn_pdct (snd x)) (sl_pwr x') (snd x')).
+Proof. exact sl_full_step_split. Qed.
+
+Theorem C10_whole_set_speed_step : forall (e : Env (F:=R)) times speeds fmax (x x' : (TStateR * ResCache) * ConsistR),
+  ss_full_step e times speeds fmax x = Ok x' -> cinv (snd x) ->
+  cinv (snd x') /\ cn_pdct (snd x') = cn_pdct (snd x) /\
+  (limits_nonneg (snd x') -> split_ok (cn_pdct (snd x)) (ss_pwr x') (snd x')).
+Proof. exact ss_full_step_split. Qed.
+
+Theorem C10_whole_speed_limit_run : forall (e : Env (F:=R)) pts fmax n x x',
+  cinv (snd x) -> sl_full_run n e pts fmax x = Ok x' ->
+  cinv (snd x') /\ cn_pdct (snd x') = cn_pdct (snd x) /\
+  forall k y y', (k < n)%nat -> sl_full_run k e pts fmax x = Ok y -> sl_full_step e pts fmax y = Ok y' ->
+    cinv (snd y) /\ (limits_nonneg (snd y') -> split_ok (cn_pdct (snd x)) (sl_pwr y') (snd y')).
+Proof. exact sl_full_run_split. Qed.
+
+Theorem C10_whole_set_speed_run : forall (e : Env (F:=R)) times speeds fmax n x x',
+  cinv (snd x) -> ss_full_run n e times speeds fmax x = Ok x' ->
+  cinv (snd x') /\ cn_pdct (snd x') = cn_pdct (snd x) /\
+  forall k y y', (k < n)%nat -> ss_full_run k e times speeds fmax x = Ok y -> ss_full_step e times speeds fmax y = Ok y' ->
+    cinv (snd y) /\ (limits_nonneg (snd y') -> split_ok (cn_pdct (snd x)) (ss_pwr y') (snd y')).
+Proof. exact ss_full_run_split. Qed.
